@@ -560,3 +560,79 @@ def meta_common(pid, results, tier, extra_functions=()):
                         'Cache methods raise only the exceptions listed in CALLEE_EXC'],
         'explanation': 'FanoutCache bodies executed from /repo with symbolic shard count; Disk.hash executed per key class',
     }
+
+
+# ------------------------------------------------------------------ FanoutCache.transact (C06)
+def fanout_transact():
+    """Every shard's transaction is entered exactly once, in index order, with retry=True, before the body
+    runs; the ExitStack unwinds them all on normal and exceptional exits; retry=False is refused."""
+    ctx = fctx()
+    fv = ctx.func('diskcache.fanout.FanoutCache.transact')
+
+    def entered_upto(st, i):
+        j = z3.Int('j_ent')
+        d = st.world['ghost_entered']
+        return z3.ForAll([j], z3.Select(d, j) == z3.If(z3.And(j >= 0, j < i), 1, 0))
+    ctx.loop_invariants[('diskcache.fanout.FanoutCache.transact', 0)] = LoopSpec(
+        'C06.fanout.transact.loop', lambda it, fr, i: entered_upto(it.st, i), havoc_world=('ghost_entered',))
+    out = []
+    for retry, body_raises in ((True, False), (True, True), (False, False)):
+        def run(st, retry=retry, body_raises=body_raises):
+            it = ctx.interp(st)
+            fan, n = make_fanout(ctx, st)
+            st.world['ghost_entered'] = z3.K(z3.IntSort(), z3.IntVal(0))
+            st.ghost['n'] = n
+
+            def body(yielded):
+                st.effect('BODY')
+                if body_raises:
+                    raise_py('RuntimeError', 'body failed')
+            return it.call_function(fv, [fan, retry], {}, cm_body=body)
+        for k, p in enumerate(explore(run)):
+            st = p.state
+            tr = st.trace
+            base = 'C06.fanout.transact[retry=%s,body %s]#%d' % (retry, 'raises' if body_raises else 'ok', k)
+            for o in st.obligations:
+                out.append(discharge('%s/%s' % (base, o.name), o.kind, o.pc, o.goal, function='FanoutCache.transact', path=p.decisions))
+            if p.kind == 'cut':
+                ents = [e[1] for e in tr if e[0] == 'CM_ENTER']
+                ok = len(ents) == 1 and ents[0]['name'] == 'transact' and ents[0]['bound'].get('retry') is True
+                out.append(Result(base + '.each_step_enters_one_shard_with_retry', 'delegate', 'proved' if ok else 'refuted', ms=0,
+                                  backend='engine', function='FanoutCache.transact', path=p.decisions,
+                                  detail=None if ok else 'iteration enters %r' % [(e['name'], e['bound']) for e in ents]))
+                continue
+            if not retry:
+                ok = p.kind == 'raise' and p.value.cls == 'AssertionError' and not [e for e in tr if e[0] == 'CM_ENTER']
+                out.append(Result(base + '.refuses_retry_false', 'post', 'proved' if ok else 'refuted', ms=0, backend='engine',
+                                  function='FanoutCache.transact', path=p.decisions, detail=None if ok else '%s %r' % (p.kind, p.value)))
+                continue
+            names = [e[0] for e in tr if e[0] in ('BODY', 'EXITSTACK_UNWIND')]
+            ok = names == ['BODY', 'EXITSTACK_UNWIND'] and ((p.kind == 'raise' and p.value.cls == 'RuntimeError') if body_raises else p.kind == 'return')
+            out.append(Result(base + '.body_inside_all_then_unwind', 'trace', 'proved' if ok else 'refuted', ms=0, backend='engine',
+                              function='FanoutCache.transact', path=p.decisions, detail=None if ok else 'effects %r, exit %s %r' % (names, p.kind, p.value)))
+            j = z3.Int('j_cov')
+            n = st.ghost['n']
+            goal = z3.ForAll([j], z3.Implies(z3.And(j >= 0, j < n), z3.Select(st.world['ghost_entered'], j) == 1))
+            out.append(discharge(base + '.every_shard_entered_once', 'post', p.pc, goal, function='FanoutCache.transact', path=p.decisions))
+    return out
+
+
+def persistent_transact():
+    """Deque.transact / Index.transact delegate to self._cache.transact(retry=True) around the body."""
+    ctx = fctx()
+    out = []
+    for qual, short in (('diskcache.persistent.Deque', 'Deque'), ('diskcache.persistent.Index', 'Index')):
+        fv = ctx.func(qual + '.transact')
+
+        def run(st, qual=qual):
+            it = ctx.interp(st)
+            cache = Recorder('cache', ctx.cls('diskcache.core.Cache'))
+            obj = ctx.new_obj(qual, {'_cache': cache})
+            return it.call_function(fv, [obj], {}, cm_body=lambda y: st.effect('BODY'))
+        for k, p in enumerate(explore(run)):
+            tr = [(e[0], e[1].get('name'), e[1].get('bound')) for e in p.state.trace if e[0] in ('CM_ENTER', 'CM_EXIT', 'BODY')]
+            ok = p.kind == 'return' and [t[0] for t in tr] == ['CM_ENTER', 'BODY', 'CM_EXIT'] and tr[0][1] == 'transact' and \
+                tr[0][2].get('retry') is True
+            out.append(Result('C06.%s.transact.delegates#%d' % (short, k), 'delegate', 'proved' if ok else 'refuted', ms=0,
+                              backend='engine', function=short + '.transact', path=p.decisions, detail=None if ok else repr(tr)))
+    return out
